@@ -154,10 +154,12 @@ func (q *Queue) Add(elem *queue.Elem) (err error) {
 			return
 		}
 
-		if q.inflightDrained {
-			// drop the front message
-			dropElem = q.current
-			return
+		// drop the front (oldest) non-inflight message
+		for e := q.current; e != nil; e = e.Next() {
+			if e.Value.(*queue.Elem).ID() == 0 {
+				dropElem = e
+				return
+			}
 		}
 		// the messages in the queue are all inflight messages, drop the current elem
 		return
